@@ -877,6 +877,9 @@ impl Property for C14 {
     fn check(case: &FailCase, env: &mut Env) -> Verdict {
         check_c14_case(case, env)
     }
+    fn from_fuzz_bytes(d: &[u8]) -> Option<FailCase> {
+        Some(crate::fuzzdec::decode_fail_case(d))
+    }
     fn use_checked_build() -> bool {
         true
     }
